@@ -554,6 +554,8 @@ class Interp:
                 val[i] = (s.rec is not None) if isinstance(s, Ptr) else True      # It, PtrLV: non-null
             elif ck == 'NullToPointer':
                 val[i] = Ptr(None)
+            elif ck == 'BitCast' and isinstance(s, Ptr) and s.rec is not None and '#flat' in s.rec and 'short' in (e.get('t') or ''):
+                val[i] = It(s.rec['#flat'], 0)         # a table struct laid over an array of 16-bit cells, viewed as that array
             else:
                 val[i] = s
             return
